@@ -42,8 +42,14 @@ func ruleC01(c *Check, p *Prog) {
 	c.Floor("R-EQUIV", 7)
 	runNumSpecs(c, p, c01Specs)
 	checkDecisionTable(c, p, "R-PART", "selectM", pkgRoot, "selectM", refSelectM, decisionPts, "block length 10 / 100 / 1000 / 10000 / 1000000 below 10^3 / from 10^3 / 10^4 / 10^6 / 10^8 bits")
+	// the chi-square tail function these tests map their statistic through (shared with C06)
+	for _, sp := range c06Specs[:2] {
+		checkEquiv(c, p, sp.Rule, sp.Key, sp.Spec, sp.What)
+	}
 	checkPreconds(c, p, "C01")
 	checkEntryPoints(c, p, "C01")
+	checkEquiv(c, p, "R-MSB", "B2bit", eqSpec{Pkg: pkgRoot, Name: "B2bit", RefName: "B2bit", Dom: map[string]Domain{"param:0": {Lo: 0, Hi: 255}}}, "masks 0x80..0x01 in order")
+	checkEquiv(c, p, "R-MSB", "B2bitArr", eqSpec{Pkg: pkgRoot, Name: "B2bitArr", RefName: "B2bitArr", Inline: map[string]bool{pkgRoot + ".B2bitArr": true}}, "append B2bit(b) for every byte in order")
 }
 
 var c02Specs = []numSpec{
@@ -59,6 +65,10 @@ func ruleC02(c *Check, p *Prog) {
 	runNumSpecs(c, p, c02Specs)
 	checkDecisionTable(c, p, "R-PART", "selectParameters", pkgRoot, "selectParameters", refSelectParameters, decisionPts, "regime 0 / 1 / 2 (block length 8 / 128 / 10000) for n < 6272 / < 750000 / otherwise")
 	checkLongestRunTables(c, p)
+	// the chi-square tail function these tests map their statistic through (shared with C06)
+	for _, sp := range c06Specs[:2] {
+		checkEquiv(c, p, sp.Rule, sp.Key, sp.Spec, sp.What)
+	}
 	checkPreconds(c, p, "C02")
 	checkEntryPoints(c, p, "C02")
 }
@@ -91,6 +101,10 @@ func ruleC04(c *Check, p *Prog) {
 	c.Floor("R-EQUIV", 6)
 	runNumSpecs(c, p, c04Specs)
 	checkConstTables(c, p, "C04")
+	// the chi-square tail function these tests map their statistic through (shared with C06)
+	for _, sp := range c06Specs[:2] {
+		checkEquiv(c, p, sp.Rule, sp.Key, sp.Spec, sp.What)
+	}
 	checkPreconds(c, p, "C04")
 	checkEntryPoints(c, p, "C04")
 }
@@ -102,10 +116,14 @@ var c05Specs = []numSpec{
 
 func ruleC05(c *Check, p *Prog) {
 	c.Explanation = "Decides for the spectral test: +-1 fill of a zero-initialised complex buffer of size ceilPow2(n) (least power of two >= max(n,2), R-EQUIV on ceilPow2), fft.New(N) with its error leading to panic and Transform applied to that fresh buffer, threshold sqrt(2.995732274 n), N0=0.95n/2, strict count over i<n/2-1 of |f_i|, divisor sqrt(0.95*0.05*n/3.8) with the sqrt2 folding, erfc pair. The transform itself is C19." + numNote(c) + "."
-	c.Floor("R-EQUIV", 9)
+	c.Floor("R-EQUIV", 8)
 	runNumSpecs(c, p, c05Specs)
 	// the transform the test relies on (shared with C19): size limits 2..2^27, plan construction, permutation, butterflies
-	runNumSpecs(c, p, c19Specs)
+	for _, sp := range c19Specs {
+		if sp.Key != "fft.Inverse" { // the spectral test never calls Inverse
+			checkEquiv(c, p, sp.Rule, sp.Key, sp.Spec, sp.What)
+		}
+	}
 	checkPreconds(c, p, "C05")
 	checkEntryPoints(c, p, "C05")
 }
